@@ -62,8 +62,6 @@
   --     from it: the exchange step itself is covered by `probEvent_rule2_fragX` + `Fscm.solve_nondescendant`, but the recursive call
   --     is about a two-world event (`Y_x`, `Y'`), outside the fragment on which ID* is proved sound (C07); (c) starred values /
   --     counterfactual inputs: ID* is wrong there today (F10), inherited; (d) the bound-range part of F11 in the final normalisation.
-  --     `exchangeB` also asks (by running the model) that the counterfactual graph of the exchanged outcomes keeps every `Y_x`; this held
-  --     on every generated input (no `Y_x` of a descendant of `X` is merged into `Y`) but is not proved from the other conditions.
   --   theorem idcstar_zero_sound : idcStar … = .ok .zero → … → probEvent M ν (outs ++ conds) = 0
   --     proved for Zero from line 3 (`idcstar_zero_line3_sound`) and for Zero coming from ID*'s lines 2 and 5 (C07); Zero from
   --     deeper inside ID* is open (false today: F10/M5).
@@ -352,7 +350,7 @@ theorem idcstar_sound_fragment_exchange (M : Model) (ν : BaseValues) (dom : Nam
   -- what the dynamic test says, for whatever counterfactual graph line 2 returns
   have hsplit : ∀ cf nev, makeCounterfactualGraph ordf G (outcomes ++ condOf c.name) = .ok (cf, some nev) →
       (∃ c', firstExchangeable cf outcomes.keys (condOf c.name).keys = .ok (some c')) ∧
-      (exchangeAllB ordf G cf outcomes (Var.plain c.name) ⟨c.name, false⟩ = true ∨
+      (exchangeAllB cf outcomes (Var.plain c.name) = true ∨
        exchangeNoneB cf outcomes (Var.plain c.name) = true) := by
     intro cf nev hcg
     rw [hcg] at hdyn
@@ -380,28 +378,13 @@ theorem idcstar_sound_fragment_exchange (M : Model) (ν : BaseValues) (dom : Nam
     obtain ⟨nev0, rfl, _⟩ := frag_facts hord hG hdl hbl hfrC.frag (by simp) hcg0
     rcases (hsplit cf0 nev0 hcg0).2 with hall | hnone
     · -- every outcome descends from `X`
-      unfold exchangeAllB at hall
-      simp only [Bool.and_eq_true] at hall
-      obtain ⟨hd1, hd2⟩ := hall
-      apply idcStarFuel_sound_fragX ordf dordf kordf G M ν dom hM (fun pmf hp => (hnorm pmf hp).2) hdom hG hdl hbl hord hdo
-        hfrC hOne ?_ ?_ _ e h (ne_of_gt hpos)
-      · intro cf nev hcg
-        rw [hcg0] at hcg
-        simp only [Except.ok.injEq, Prod.mk.injEq, Option.some.injEq] at hcg
-        obtain ⟨rfl, rfl⟩ := hcg
-        refine ⟨(hsplit cf0 nev0 hcg0).1, ?_⟩
-        cases hx : exchangeOutcomes cf0 outcomes (Var.plain c.name) ⟨c.name, false⟩ with
-        | error err => rw [hx] at hd1; cases hd1
-        | ok no' =>
-          rw [hx] at hd1
-          simp only [decide_eq_true_eq] at hd1
-          rw [hd1]
-          rfl
-      · intro cf2 nev2 hcg2
-        have hcg2' : makeCounterfactualGraph ordf G (exOut outcomes (Var.plain c.name).name) = .ok (cf2, some nev2) := hcg2
-        rw [hcg2'] at hd2
-        simp only [List.all_eq_true] at hd2
-        exact hd2
+      apply idcStarFuel_sound_fragX_all ordf dordf kordf G M ν dom hM (fun pmf hp => (hnorm pmf hp).2) hdom hG hdl hbl hord hdo
+        hfrC hOne ?_ _ e h (ne_of_gt hpos)
+      intro cf nev hcg
+      rw [hcg0] at hcg
+      simp only [Except.ok.injEq, Prod.mk.injEq, Option.some.injEq] at hcg
+      obtain ⟨rfl, rfl⟩ := hcg
+      exact ⟨(hsplit cf0 nev0 hcg0).1, hall⟩
     · -- no outcome descends from `X`
       apply idcStarFuel_sound_fragX_none ordf dordf kordf G M ν dom hM (fun pmf hp => (hnorm pmf hp).2) hdom hG hdl hbl hord hdo
         hfrC hOne ?_ _ e h (ne_of_gt hpos)
